@@ -304,8 +304,88 @@ pub fn run_c06(ctx: &Ctx) {
         let sig = if !sig.is_empty() && !harness_reset { format!("{}/counter-left-to-the-library", sig) } else { sig };
         out::outcome(idx, &class2, if sig.is_empty() { Verdict::Held } else { Verdict::Violated }, &sig, &d);
     }
+    // ---- calls that race with the installation itself: a worker thread calls the target the moment it sees
+    // the fully written entry patch; that call is absorbed by THIS installation and must be counted
+    let race_rounds: u64 = if ctx.thorough { 40_000 } else { 3_000 };
+    let mut race_hits = 0u64;
+    for (ri, &arm) in [Arm::WhenRet, Arm::Ret].iter().enumerate() {
+        let idx = trials.len() as u64 + ri as u64;
+        if !ctx.mine(idx) {
+            continue;
+        }
+        let class = format!("{:?}/N=1/call-races-with-the-installation", arm);
+        out::intent(idx, &class, &J::new().n("rounds", race_rounds).s("crash_sig", "install-race"));
+        let taddr = match arm {
+            Arm::WhenRet => tgt_a as usize,
+            _ => tgt_b as usize,
+        };
+        // learn what the patched entry looks like (same trampoline page every time in practice)
+        N_STATIC.store(0, Ordering::SeqCst);
+        let snap: Vec<u8> = {
+            let mut inj = ip::lib(InjectorPP::new);
+            ip::lib(|| install(&mut inj, arm, make(arm)));
+            let b = crate::maps::read_vec(taddr, 5).unwrap_or_default();
+            let _ = std::panic::catch_unwind(std::panic::AssertUnwindSafe(|| ip::lib(|| drop(inj))));
+            b
+        };
+        let snap = Arc::new(snap);
+        let mut sig = String::new();
+        let mut d = J::new();
+        let mut rounds_done = 0u64;
+        let mut early = 0u64;
+        for _ in 0..race_rounds {
+            N_STATIC.store(1, Ordering::SeqCst);
+            let stop = Arc::new(AtomicBool::new(false));
+            let (snap2, stop2) = (snap.clone(), stop.clone());
+            let h = std::thread::spawn(move || {
+                let mut buf = [0u8; 5];
+                loop {
+                    unsafe { std::ptr::copy_nonoverlapping(taddr as *const u8, buf.as_mut_ptr(), 5) };
+                    if buf[..] == snap2[..] {
+                        return Some(call(arm, true));
+                    }
+                    if stop2.load(Ordering::Relaxed) {
+                        return None;
+                    }
+                    std::hint::spin_loop();
+                }
+            });
+            let pair = make(arm);
+            let counter = counter_of(&pair.1).unwrap();
+            let mut inj = ip::lib(InjectorPP::new);
+            ip::lib(|| install(&mut inj, arm, pair));
+            // the worker has seen (or will at once see) the patch: wait for its single call
+            let t0 = Instant::now();
+            while !h.is_finished() && t0.elapsed().as_millis() < 200 {
+                std::hint::spin_loop();
+            }
+            stop.store(true, Ordering::SeqCst);
+            let r = h.join().unwrap_or(None);
+            let count = counter.load(Ordering::SeqCst);
+            let (dres, _) = panicobs::observe(|| ip::lib(|| drop(inj)));
+            rounds_done += 1;
+            match r {
+                Some(Ok(v)) if v == faked_value(arm) => {
+                    race_hits += 1;
+                    if count != 1 || dres.is_err() {
+                        sig = "call-absorbed-during-installation-was-not-counted".into();
+                        d = J::new().n("counter", count).s("exit", &dres.err().unwrap_or_else(|| "no-panic".into())).n("round", rounds_done);
+                        break;
+                    }
+                }
+                Some(Ok(_)) => early += 1, // reached the original: not a call of this installation
+                _ => {}
+            }
+        }
+        let d = d.n("rounds", rounds_done).n("calls_that_reached_the_fake", race_hits).n("calls_that_reached_the_original", early);
+        if sig.is_empty() && race_hits == 0 {
+            out::outcome(idx, &class, Verdict::Inconclusive, "the-worker-never-saw-the-patch", &d);
+        } else {
+            out::outcome(idx, &class, if sig.is_empty() { Verdict::Held } else { Verdict::Violated }, &sig, &d);
+        }
+    }
     let bo = by_outcome.iter().fold(J::new(), |j, (k, v)| j.n(k, *v));
-    out::summary(&J::new().n("trials_total", trials.len()).n("calls_made", total_calls).n("multithread_trials_with_overlapping_call_windows", overlap_trials).o("by_outcome", bo));
+    out::summary(&J::new().n("calls_racing_with_an_installation", race_hits).n("trials_total", trials.len()).n("calls_made", total_calls).n("multithread_trials_with_overlapping_call_windows", overlap_trials).o("by_outcome", bo));
 }
 
 // ---------------------------------------------------------------------------------- C07
